@@ -340,13 +340,13 @@ def tab_l(ctx):
     e2 = Engine(F)
     e2.key_all = True
     outs = e2.call_path(U8LVL, e2.symbolic_args(b, names=["v"]))
+    # semantic table: for every byte value, the result of every exit whose path condition admits it
+    from engine.state import Dead
     got = {}
     other = None
+    ambiguous = []
+    table = {}
     for st, rv in outs:
-        val = None
-        for k in st.key:
-            if k[0] == "val":
-                val = k[2]
         var = None
         if isinstance(rv, Enum) and len(rv.variants) == 1:
             vi, fs = rv.variants[0]
@@ -357,16 +357,39 @@ def tab_l(ctx):
                 var = e2.T.variant_name(inner.ty, inner.variants[0][0]) if isinstance(inner, Enum) and len(inner.variants) == 1 else "?"
         else:
             var = "?"
-        if val == "other" or val is None:
-            other = var
-        else:
-            got[int(val)] = var
+        for c in range(256):
+            s2 = st.fork()
+            try:
+                e2.assume(s2, ("cmp", "Eq", Lin.sym("v"), Lin.const(c)), True)
+            except Dead:
+                continue
+            table.setdefault(c, set()).add(var)
+    for c in range(256):
+        vs = table.get(c, set())
+        if len(vs) != 1:
+            ambiguous.append(c)
+            continue
+        v1 = next(iter(vs))
+        if v1 is None:
+            continue
+        got[c] = v1
+    if ambiguous:
+        other = "undetermined for %s" % ambiguous[:8]
     want = {v: k for k, v in dlt_spec.MTIN_LOG.items()}
     if got == want and other is None:
         R.obligation("TAB-L", U8LVL + "|table", "discharged", "1..6 -> %s, anything else -> None" % [want[i] for i in sorted(want)])
         R.instance("TAB-L", "u8_to_log_level: %s, else None" % got)
     else:
         R.violation("TAB-L", U8LVL + "|table", "u8_to_log_level maps %s and everything else to %s; the property needs 1..6 -> Fatal..Verbose and no level filter (None) otherwise" % (got, other), function=U8LVL, file=b["span"]["f"], line=b["span"]["l"])
+
+
+def _peek(eng, st, v):
+    try:
+        if isinstance(v, Ref):
+            return eng.M.read_path(st, v.loc, v.path)
+    except Exception:
+        pass
+    return None
 
 
 def sib(ctx):
@@ -385,9 +408,19 @@ def sib(ctx):
             if lp == U8LVL:
                 from engine.contracts import ret_ty
                 return [(st, Top(ret_ty(eng_, site), "u8_to_log_level(%s)" % name_of(eng_, st, args[0])))]
-            if p.endswith("FromIterator>::from_iter") or p.endswith("FromIterator::from_iter"):
+            if p.endswith("FromIterator>::from_iter") or p.endswith("FromIterator::from_iter") or re.search(r"Iterator::collect(::<.*>)?$", p):
                 from engine.contracts import ret_ty
-                return [(st, Top(ret_ty(eng_, site), "set(%s)" % name_of(eng_, st, args[0])))]
+                nm = name_of(eng_, st, args[0])
+                srcs = sorted(set(re.findall(r"\*?cfg\.\w+\.Some\.0", nm + " " + repr(args[0]) + " " + repr(_peek(eng_, st, args[0])))))
+                if len(srcs) == 1:
+                    nm = srcs[0]
+                return [(st, Top(ret_ty(eng_, site), "set(%s)" % nm))]
+            if re.search(r"Iterator::(cloned|copied|map|filter|by_ref|rev|chain|inspect|take|skip)(::<.*>)?$", p) and args:
+                # lazy adaptors: keep the name of the iterated source
+                from engine.contracts import ret_ty
+                srcs = sorted(set(re.findall(r"\*?cfg\.\w+\.Some\.0", repr(args[0]) + " " + repr(_peek(eng_, st, args[0])))))
+                if len(srcs) == 1:
+                    return [(st, Top(ret_ty(eng_, site), "iter(%s)" % srcs[0]))]
             return None
 
         eng.on_call = on_call
